@@ -25,7 +25,9 @@ class LineScheduler:
         self.pkg = package_dir
         self.block_timeout = block_timeout
 
-    def run(self, bodies, plan):
+    def run(self, bodies, plan, on_main=None):
+        """on_main: index of the body that runs on the CALLING thread (the process's main thread when the caller is it)
+        while the scheduling itself moves to a helper thread - a library may treat its main thread specially"""
         n = len(bodies)
         go = [threading.Semaphore(0) for _ in range(n)]
         msgs = queue.Queue()
@@ -58,9 +60,33 @@ class LineScheduler:
                 sys.settrace(None)
                 msgs.put(("done", t))
 
-        threads = [threading.Thread(target=runner, args=(t,), daemon=True) for t in range(n)]
+        threads = [threading.Thread(target=runner, args=(t,), daemon=True) for t in range(n) if t != on_main]
         for th in threads:
             th.start()
+        if on_main is not None:
+            failure = []
+
+            def controller():
+                try:
+                    self._control(n, plan, msgs, go, state, res, values)
+                except BaseException as ex:     # noqa
+                    failure.append(ex)
+                    for g in go:                # never leave the calling thread parked for ever
+                        for _ in range(1000):
+                            g.release()
+            ctl = threading.Thread(target=controller, daemon=True)
+            ctl.start()
+            runner(on_main)
+            ctl.join(timeout=600)
+            if failure:
+                raise failure[0]
+        else:
+            self._control(n, plan, msgs, go, state, res, values)
+        for th in threads:
+            th.join(timeout=5)
+        return res
+
+    def _control(self, n, plan, msgs, go, state, res, values):
         # wait until every thread is parked at its start
         parked = 0
         while parked < n:
@@ -126,6 +152,3 @@ class LineScheduler:
                 drain(-1, 0.2)
             if guard > 100000:
                 raise RuntimeError("scheduler did not terminate")
-        for th in threads:
-            th.join(timeout=5)
-        return res
